@@ -147,12 +147,13 @@ def finding_class(ast, kinds):
     ops = set()
     for _, _, p in preds:
         ops.update(n['op'] for n in relgen._nodes(p) if n['f'] == 'op')  # pylint: disable=protected-access
+    fixes = set(relgen.detect_fixes())      # a class whose defect the code no longer has explains nothing
     if kinds & {'unsafe', 'backend-differs'}:
-        if 'not' in ops:
+        if 'not' in ops and 'not' not in fixes:
             return F_NOT
-        if 'or' in ops:
+        if 'or' in ops and 'or' not in fixes:
             return F_OR
-        if any(j['kind'] in ('left', 'right', 'full') for j in joins):
+        if any(j['kind'] in ('left', 'right', 'full') for j in joins) and 'outer' not in fixes:
             return F_OUTER
     if 'incomplete' in kinds and any(j['on']['f'] == 'op' and j['on']['op'] == 'eq' for j in joins):
         return F_EQJOIN
